@@ -10,7 +10,8 @@ for d in seeded/*/; do
   echo "$id" | grep -Eq "$pat" || continue
   if [ -f $d/meta.json ]; then
     p=$(python3 -c "import json,sys; m=json.load(open('$d/meta.json')); print(m.get('breaks_property') or m.get('property') or '')")
-    [ -n "$p" ] && echo "$id $p 1"
+    b=$(python3 -c "import json; print(1 if json.load(open('$d/meta.json')).get('benign_since') else 0)")
+    [ -n "$p" ] && { if [ "$b" = 1 ]; then echo "$id $p 0"; else echo "$id $p 1"; fi; }
   elif [[ $id == benign-* ]]; then
     for p in $(python3 -c "import json; print(' '.join(c['property_id'] for c in json.load(open('MANIFEST.json'))['checks']))" 2>/dev/null); do echo "$id $p 0"; done
   fi
